@@ -88,6 +88,11 @@ func (core *JApiCore) next(lexeme scanner.Lexeme) *jerr.JApiError {
 		return nil
 
 	case scanner.ContextExplicitOpening:
+		if core.currentDirective.HasExplicitContext {
+			// The directive has its opening parenthesis already: the second one
+			// would never be closed (or would be taken for closed by mistake).
+			return core.japiError(jerr.NoDirectiveForTheElement, lexeme.Begin())
+		}
 		core.processContextBegin()
 		return nil
 
